@@ -57,6 +57,27 @@ STD_STATUS_CODES = {
 }
 
 
+# The same table by MEANING (727.0-B-5 table 5-18): (action, meaning) -> status nibble.  The meanings are the words of the
+# table; the library's enum member names for them are matched in checks/c08.py.
+STD_STATUS_BY_MEANING = {
+    (A_CREATE_FILE, "successful"): 0b0000, (A_CREATE_FILE, "create not allowed"): 0b0001, (A_CREATE_FILE, "not performed"): 0b1111,
+    (A_DELETE_FILE, "successful"): 0b0000, (A_DELETE_FILE, "file does not exist"): 0b0001, (A_DELETE_FILE, "delete not allowed"): 0b0010,
+    (A_DELETE_FILE, "not performed"): 0b1111,
+    (A_RENAME_FILE, "successful"): 0b0000, (A_RENAME_FILE, "old file name does not exist"): 0b0001, (A_RENAME_FILE, "new file name already exists"): 0b0010,
+    (A_RENAME_FILE, "rename not allowed"): 0b0011, (A_RENAME_FILE, "not performed"): 0b1111,
+    (A_APPEND_FILE, "successful"): 0b0000, (A_APPEND_FILE, "file name 1 does not exist"): 0b0001, (A_APPEND_FILE, "file name 2 does not exist"): 0b0010,
+    (A_APPEND_FILE, "append not allowed"): 0b0011, (A_APPEND_FILE, "not performed"): 0b1111,
+    (A_REPLACE_FILE, "successful"): 0b0000, (A_REPLACE_FILE, "file name 1 does not exist"): 0b0001, (A_REPLACE_FILE, "file name 2 does not exist"): 0b0010,
+    (A_REPLACE_FILE, "replace not allowed"): 0b0011, (A_REPLACE_FILE, "not performed"): 0b1111,
+    (A_CREATE_DIR, "successful"): 0b0000, (A_CREATE_DIR, "directory cannot be created"): 0b0001, (A_CREATE_DIR, "not performed"): 0b1111,
+    (A_REMOVE_DIR, "successful"): 0b0000, (A_REMOVE_DIR, "directory does not exist"): 0b0001, (A_REMOVE_DIR, "delete not allowed"): 0b0010,
+    (A_REMOVE_DIR, "not performed"): 0b1111,
+    (A_DENY_FILE, "successful"): 0b0000, (A_DENY_FILE, "delete not allowed"): 0b0010, (A_DENY_FILE, "not performed"): 0b1111,
+    (A_DENY_DIR, "successful"): 0b0000, (A_DENY_DIR, "delete not allowed"): 0b0010, (A_DENY_DIR, "not performed"): 0b1111,
+}
+assert {a: tuple(sorted(v for (b, _m), v in STD_STATUS_BY_MEANING.items() if b == a)) for a in STD_STATUS_CODES} == STD_STATUS_CODES
+
+
 # ------------------------------------------------------------------------------ 5.4 basics
 def lv(value: bytes) -> bytes:
     """LV: length 8 | value (length octets)."""
